@@ -59,12 +59,13 @@ IORA_SMAP1(iora_kvmap, iora_vec, iora_vec_DEFAULT)
 IORA_SMAP1(iora_expmap, ExpiryEntry, ExpiryEntry_DEFAULT)
 IORA_SMAP1_ITER(iora_expmap, ExpiryEntry)
 IORA_SMAP1(iora_cachemap, CacheEntry, CacheEntry_DEFAULT)
-typedef struct { iora_gfile *_logPath; iora_kvmap _kv; iora_expmap _expiry; iora_cachemap _cache; int _mutex; int _cacheMutex; iora_ms _ttlWheelMaxRange; } KVStore;
+typedef struct { iora_gfile *_logPath; iora_kvmap _kv; iora_expmap _expiry; iora_cachemap _cache; iora_mutex _mutex; int _cacheMutex; iora_ms _ttlWheelMaxRange; } KVStore;
 
 /* updateCache(key, value, expiry): stub (may evict an arbitrary entry, then stores (value, expiry) under key). Ghost: call recorded. */
 bool G_uc_called; iora_skey G_uc_key; iora_vec G_uc_value; iora_tp G_uc_expiry;
 static inline void KVStore_updateCache(KVStore *self, iora_skey key, iora_vec value, iora_tp expiry)
-{ G_uc_called = true; G_uc_key = key; G_uc_value = value; G_uc_expiry = expiry;
+{ IORA_ASSERT(self->_mutex.held, "LK-CACHE the cache is refilled while the store mutex is still held: the refill is atomic with the read of _kv/_expiry it is derived from (otherwise a complete remove/set/eviction can run in the gap and the reader overwrites the writer's cache maintenance with the old value)");
+  G_uc_called = true; G_uc_key = key; G_uc_value = value; G_uc_expiry = expiry;
   if (nondet_bool()) self->_cache.has = false;                       /* the "LRU" eviction removes some entry */
   if (key.is_g) { self->_cache.has = true; self->_cache.val.value = value; self->_cache.val.expiry = expiry; } }
 
